@@ -31,6 +31,26 @@ structure St where
 
 def lookup (reg : List (Key × Nat)) (k : Key) : Option Nat := (reg.find? (fun e => e.1 = k)).map (·.2)
 
+/-- `Mgr.GetSche(name)`: lookup-or-create under ONE critical section -/
+def getSche (s : St) (k : Key) : St × Nat :=
+  match lookup s.reg k with
+  | some sc => (s, sc)
+  | none => ({ s with nextSche := s.nextSche + 1, reg := (k, s.nextSche) :: s.reg }, s.nextSche)
+
+/-- the split variant: the lookup (under a read lock) … -/
+def lookupPhase (s : St) (k : Key) : Option Nat := lookup s.reg k
+/-- … and, for a caller that saw a miss, create-and-store under the write lock WITHOUT looking again -/
+def createPhase (s : St) (k : Key) : St × Nat :=
+  ({ s with nextSche := s.nextSche + 1, reg := (k, s.nextSche) :: s.reg }, s.nextSche)
+
+/-- any number of `GetSche` calls, in the order they enter the critical section -/
+def getMany : St → List Key → St × List (Key × Nat)
+  | s, [] => (s, [])
+  | s, k :: ks =>
+    let r := getSche s k
+    let rest := getMany r.1 ks
+    (rest.1, (k, r.2) :: rest.2)
+
 /-- `NewRunService(name)`; `none` = the empty name -/
 def new (raw : Bool) (s : St) (name : Option String) : St × Svc :=
   let key : Key := match name with | some n => .named n | none => .anon (s.nextId + 1)
